@@ -23,10 +23,69 @@ Definition py_file_plain (q : mquirks) (f : file) : bool :=
   forallb (fun sc => forallb (py_site_plain q) (sc_sites sc)) (f_scopes f).
 
 (* ------------------------------------------------------------------ file names *)
-Lemma py_test_name name : smem name (name_pool MPy) = true -> py_is_test_file name = spec_is_test_file MPy name.
+(* s = x ++ suf for some x *)
+Lemma ends_with_iff suf s : ends_with suf s = true <-> exists x, s = x ++ suf.
 Proof.
-  intros H. apply smem_In in H. cbn [name_pool In] in H.
-  repeat (destruct H as [<-|H]; [reflexivity|]). destruct H.
+  split.
+  - induction s as [|c r IH]; cbn [ends_with]; intros H; apply orb_prop in H; destruct H as [H|H].
+    + apply list_eqb_eq in H. exists []. exact H.
+    + discriminate.
+    + apply list_eqb_eq in H. exists []. exact H.
+    + destruct (IH H) as [x ->]. exists (c :: x). reflexivity.
+  - intros [x ->]. apply ends_with_app_self.
+Qed.
+
+Lemma ends_with_app_tail n e s : ends_with (n ++ e) (s ++ e) = ends_with n s.
+Proof.
+  apply Bool.eq_true_iff_eq. rewrite !ends_with_iff. split; intros [x H].
+  - rewrite app_assoc in H. apply app_inv_tail in H. exists x. exact H.
+  - exists x. rewrite H, app_assoc. reflexivity.
+Qed.
+
+Lemma ascii_eqb_sym a b : Ascii.eqb a b = Ascii.eqb b a.
+Proof. destruct (Ascii.eqb a b) eqn:E; symmetry; [apply Ascii.eqb_eq in E; subst; apply Ascii.eqb_refl | apply Ascii.eqb_neq in E; apply Ascii.eqb_neq; congruence]. Qed.
+
+Lemma prefix_l_refl s : prefix_l s s = true.
+Proof. induction s as [|c r IH]; [reflexivity|]. cbn [prefix_l]. rewrite Ascii.eqb_refl. exact IH. Qed.
+
+Lemma dot_free_cons c r : dot_free (c :: r) = true -> Ascii.eqb c_dot c = false /\ dot_free r = true.
+Proof. unfold dot_free. cbn [existsb]. destruct (Ascii.eqb c_dot c); cbn [orb negb]; [discriminate|auto]. Qed.
+
+(* a dot-free needle / text followed by the same ".xyz": the needle is a prefix only when it is the whole dot-free part *)
+Lemma prefix_dot_tail e n : dot_free n = true -> forall s, dot_free s = true ->
+  prefix_l (n ++ c_dot :: e) (s ++ c_dot :: e) = list_eqb s n.
+Proof.
+  induction n as [|a n' IH]; intros Hn s Hs.
+  - destruct s as [|c r]; cbn [app prefix_l list_eqb].
+    + rewrite Ascii.eqb_refl. apply prefix_l_refl.
+    + apply dot_free_cons in Hs. destruct Hs as [Hc _]. rewrite Hc. reflexivity.
+  - apply dot_free_cons in Hn. destruct Hn as [Ha Hn']. destruct s as [|c r]; cbn [app prefix_l list_eqb].
+    + rewrite ascii_eqb_sym, Ha. reflexivity.
+    + apply dot_free_cons in Hs. destruct Hs as [_ Hr]. rewrite (IH Hn' r Hr), (ascii_eqb_sym a c). reflexivity.
+Qed.
+
+Lemma contains_dot_tail e a n' : let n := a :: n' in dot_free n = true -> forall s, dot_free s = true ->
+  contains (n ++ c_dot :: e) (s ++ c_dot :: e) = ends_with n s || contains (n ++ c_dot :: e) (c_dot :: e).
+Proof.
+  intros n Hn. induction s as [|c r IH]; intros Hs.
+  - reflexivity.
+  - change ((c :: r) ++ c_dot :: e) with (c :: (r ++ c_dot :: e)). cbn [contains ends_with].
+    change (c :: r ++ c_dot :: e) with ((c :: r) ++ c_dot :: e). rewrite (prefix_dot_tail e n Hn (c :: r) Hs).
+    apply dot_free_cons in Hs. destruct Hs as [_ Hr]. rewrite (IH Hr), orb_assoc. reflexivity.
+Qed.
+
+(* is_test_file (`name.startswith("test_") or "_test.py" in name`) = the documented test_*.py / *_test.py on every <stem>.py *)
+Lemma py_test_name name : name_good MPy name = true -> py_is_test_file name = spec_is_test_file MPy name.
+Proof.
+  unfold name_good, py_base_ok, py_is_test_file, spec_is_test_file. intros H. apply andb_prop in H. destruct H as [He Hd].
+  apply ends_with_iff in He. destruct He as [stem He]. rewrite He in Hd |- *. rewrite firstn_app_exact in Hd.
+  assert (P : py_test_prefix = "test_" /\ py_test_infix = "_test.py") by (pose proof gen_py_names as G; inversion G; auto).
+  destruct P as [-> ->]. f_equal.
+  change (chars "_test.py") with (chars "_test" ++ c_dot :: chars "py"). change (chars ".py") with (c_dot :: chars "py").
+  change (chars "_test") with ("_"%char :: chars "test").
+  rewrite (contains_dot_tail (chars "py") "_"%char (chars "test") eq_refl stem Hd), ends_with_app_tail.
+  replace (contains (("_"%char :: chars "test") ++ c_dot :: chars "py") (c_dot :: chars "py")) with false by reflexivity.
+  apply orb_false_r.
 Qed.
 
 Lemma def_name_spec name : def_name_match name = spec_def_name name.
@@ -263,7 +322,7 @@ Theorem py_report_guarded q cfg f :
   file_good MPy f = true -> py_file_plain q f = true -> py_report q cfg f = spec_report MPy cfg f.
 Proof.
   intros Hg Hp. unfold py_report. rewrite (py_definition_file q f Hg).
-  assert (Hname : smem (f_name f) (name_pool MPy) = true) by (unfold file_good in Hg; apply andb_prop in Hg; tauto).
+  assert (Hname : name_good MPy (f_name f) = true) by (unfold file_good in Hg; apply andb_prop in Hg; tauto).
   assert (Hscopes : forallb (scope_good MPy) (f_scopes f) = true) by (unfold file_good in Hg; apply andb_prop in Hg; tauto).
   unfold spec_report, spec_file_exempt. rewrite (py_test_name _ Hname).
   destruct (spec_is_definition_file f).
